@@ -91,6 +91,14 @@ fn cases(thorough: bool) -> Vec<Case> {
     v.push(case("full-table", "AhKdQc", &["text:2s2h,2d2c", "text:3s3h", "text:4s4h", "text:5s5h", "text:6s6h,6d6c", "text:7s7h", "text:8s8h", "text:9s9h"], false, 0, 1176 * 4));
     v.push(case("full-table", "7h7d7c", &["text:2s3s", "text:2h3h", "text:2d3d", "text:2c3c", "text:4s5s", "text:4h5h", "text:4d5d"], false, 0, 1176));
     v.push(case("full-table", "AsKsQs", &["text:2h3h", "text:2d3d", "text:2c3c", "text:4h5h", "text:4d5d", "text:4c5c", "text:6h7h", "text:6d7d", "text:8h9h"], false, 0, 1176));
+    // the other consuming methods of Iterator (count, nth, skip, last, fold) drain the evaluator too
+    for via in ["via:count", "via:nth", "via:skip", "via:last", "via:fold"] {
+        v.push(case("other-consumers", "Qs8d2h", &[via, "empty"], false, 0, 1176));
+        v.push(case("other-consumers", "Qs8d2h", &[via, "list:AhKh", "empty"], false, 0, 1176));
+        v.push(case("other-consumers", "As8d2h", &[via, "list:AsKs", "firstnot:As:16"], false, 1176 * 16, 1176 * 16));
+        v.push(case("other-consumers", "Qs8d2h", &[via, "first:257"], false, 0, 1176 * 257));
+        v.push(case("other-consumers", "Qs8d2h", &["scope:0,1,10,20", via, "text:AKs", "text:AKs"], false, 0, 1176 * 16));
+    }
     // no players
     v.push(case("no-players", "Qs8d2h", &[], false, 0, 1176));
     // realistic inputs
